@@ -76,10 +76,22 @@ fn cmd_verr(args: &Args) -> String {
         Ok(t) => t,
         Err(e) => return e,
     };
-    match text.parse::<toml_edit::Value>() {
-        Ok(_) => "ok".into(),
+    let line = match text.parse::<toml_edit::Value>() {
+        Ok(_) => "ok".to_string(),
         Err(e) => show_toml_error(&e),
-    }
+    };
+    // the serde value deserializer from text (de::ValueDeserializer: FromStr) runs the same entry point: same verdict, and
+    // on rejection the same span, message and rendering; nothing is appended when they agree (the model has one route)
+    let same = match (text.parse::<toml_edit::Value>(), text.parse::<toml_edit::de::ValueDeserializer>()) {
+        (Ok(_), Ok(_)) => true,
+        (Err(a), Err(b)) => {
+            a.span() == b.span()
+                && a.message() == b.message()
+                && catch_unwind(AssertUnwindSafe(|| a.to_string())).ok() == catch_unwind(AssertUnwindSafe(|| b.to_string())).ok()
+        }
+        _ => false,
+    };
+    if same { line } else { format!("{line} vd=differs") }
 }
 
 fn cmd_kerr(args: &Args) -> String {
